@@ -390,6 +390,43 @@ def r08_11(chk, P):
     return n
 
 
+def r08_12(chk, P, E):
+    chk.rule('R08.12', 'a seek that dumped the machine says so: every return of ov_pcm_seek_page / ov_pcm_seek that is '
+             'reached after the error sequence (vf->pcm_offset=-1 followed by _decode_clear(vf), with no later store of a '
+             'position) returns a negative value in every state that reaches it (K2 path flags, K4 value of the returned '
+             'expression).  An error exit that hands back a left-over 0 reports success with no position set: the next read '
+             'starts from nowhere and ov_pcm_tell answers -1')
+    setters = [
+        ('pos_dumped', k2.stores_field(VF, 'pcm_offset', ops=None), False),
+        ('pos_dumped', k2.stores_field(VF, 'pcm_offset', ops=('=',), value=-1), True),
+        ('cleared', k2.is_call('_decode_clear'), True),
+        ('cleared', k2.is_call_any(['_make_decode_ready', 'vorbis_synthesis_init']), False),
+    ]
+    n = 0
+    # ov_raw_seek is left out on purpose: it starts with pcm_offset=-1 ("not known yet") and may legitimately return 0 with the
+    # position still unknown on a stream whose packets carry no granule position
+    for fn in ('ov_pcm_seek_page', 'ov_pcm_seek'):
+        F = P.need(fn)
+        A, h = k2.analyse(P, F, setters, post_call=k2.make_post_call(P))
+        per = {}
+        for (e, fl, v, env) in k2.ret_value_classes(A):
+            if not ('pos_dumped' in fl and 'cleared' in fl):
+                continue
+            rn = A.ex[F.strip_casts(A.ex[e]['c'][0])] if A.ex[e].get('c') else None
+            if rn is not None and rn['k'] == 'call':
+                continue
+            ok = v is not None and v.hi < 0
+            cur = per.get(e)
+            per[e] = (ok and (cur[0] if cur else True), v if (cur is None or not ok) else cur[1])
+        for e, (ok, v) in sorted(per.items(), key=lambda kv: F.ex[kv[0]].get('loc') or [0, 0]):
+            n += 1
+            chk.ob('R08.12', fn, f'dumped-machine-returns-an-error@{F.loc(e)}', ok, F.where(e),
+                   f'`{F.s(e)}` is negative in every state that reaches it behind the error sequence' if ok else
+                   f'`{F.s(e)}` can be {v} behind `vf->pcm_offset=-1; _decode_clear(vf)`: an error exit that reports success (or a '
+                   'positive value) with no position set')
+    return n
+
+
 def run(chk, P):
     E = getattr(P, '_effects', None) or k3.Effects(P)
     P._effects = E
@@ -409,6 +446,8 @@ def run(chk, P):
     typestate.c08(chk, P)
     r08_11(chk, P)
     chk.floor('R08.11', 1)
+    r08_12(chk, P, E)
+    chk.floor('R08.12', 1)
     # R08.4a: the conversion of a target uses the set-up of the link it selected (shared implementation with C09 R09.4/R09.1)
     from rules import c09
 
